@@ -12,7 +12,8 @@
 
 From stdpp Require Import gmap list.
 From Coq Require Import NArith.
-From DC Require Import Ts Orswot OrswotInv OrswotLww OrswotTimely Actor ActorProofs Cluster ClusterProofs ClusterPayload Tracker.
+From DC Require Import Ts Orswot OrswotInv OrswotLww OrswotTimely Actor ActorProofs Cluster ClusterProofs ClusterPayload Tracker
+  Distributor DistributorProofs TsDiff TsDiffProofs PollerPlan.
 Open Scope N_scope.
 
 Section C01.
@@ -248,3 +249,99 @@ Proof.
     apply Forall_nil_2.
   - vm_compute. reflexivity.
 Qed.
+
+(** ** Who the replication batches are addressed to ([Distributor.v])
+
+    The task distributor keeps its own map of live members, fed by the membership changes the
+    store's glue hands it.  Over any history of registrations, membership changes and ticks, every
+    batch was addressed to the whole live map of its tick: the map obtained by applying, in order,
+    all membership changes handed over before that tick - and nothing else enters that map
+    (no mutation, no outcome of an earlier batch). *)
+Theorem C01_every_batch_addresses_the_live_map_of_its_tick :
+  forall s0 es x,
+    x ∈ (d_run s0 es).2 ->
+    exists pre, pre `prefix_of` es /\
+      s_to x = map_to_list (live_of (d_live s0) (d_queue s0 ++ ops_of pre)) /\ s_batch x <> [].
+Proof. exact every_send_addresses_its_live_map. Qed.
+
+Theorem C01_live_map_is_a_function_of_the_membership_changes :
+  forall s0 es,
+    let s := (d_run s0 es).1 in
+    live_of (d_live s) (d_queue s) = live_of (d_live s0) (d_queue s0 ++ ops_of es).
+Proof. exact live_after_run. Qed.
+
+(** One membership change on the map: a node that joined is addressed at the address it joined
+    with - also when the same change lists it as having left (an address change) -, a node that
+    left is dropped, every other entry is untouched. *)
+Theorem C01_membership_change_on_the_live_map :
+  forall (live : gmap nat N) joined left,
+    (forall i a, NoDup joined.*1 -> (i, a) ∈ joined -> member_apply live joined left !! i = Some a) /\
+    (forall i, i ∈ left.*1 -> i ∉ joined.*1 -> member_apply live joined left !! i = None) /\
+    (forall i, i ∉ left.*1 -> i ∉ joined.*1 -> member_apply live joined left !! i = live !! i).
+Proof.
+  intros live joined left. split; [|split].
+  - intros i a. exact (member_apply_joined live joined left i a).
+  - intros i. exact (member_apply_left live joined left i).
+  - intros i. exact (member_apply_other live joined left i).
+Qed.
+
+(** Dropping a peer from the live map when a batch to it fails (seeded change C16/F) is refuted:
+    the member never left, is reachable again, and is not addressed by the next batch. *)
+Theorem C01_dropping_a_peer_after_a_failed_batch_refuted :
+  let p := MPut (mkDoc 7 100 1) in
+  let q := MPut (mkDoc 9 102 2) in
+  let s0 := foldl d_register d_init [DMember [(1%nat, 11%N); (2%nat, 12%N)] []; DMutation p] in
+  let s1 := d_register (d_tick_dropping (fun j => negb (Nat.eqb j 1)) s0).1 (DMutation q) in
+  let s1' := d_register (d_tick s0).1 (DMutation q) in
+  option_map s_to (d_tick_dropping (fun _ => true) s1).2 = Some [(2%nat, 12%N)] /\
+  option_map s_to (d_tick s1').2 = Some [(1%nat, 11%N); (2%nat, 12%N)].
+Proof. exact dropping_refuted. Qed.
+
+(** ** Which keyspaces of a peer an exchange covers ([TsDiff.v])
+
+    The poller synchronises the keyspaces [KeyspaceTimestamps::diff] lists for (stamps recorded
+    for the peer, stamps the peer reports now) and skips all others.  The listed keyspaces are
+    exactly those whose two stamps differ, a keyspace known to one side only included - so a
+    keyspace is skipped only when the poller recorded, after a successful exchange of that very
+    keyspace, the stamp the peer still reports ([C01_recorded_stamp_never_ahead_of_what_was_pulled]
+    says what that stamp covers).  No keyspace is listed twice. *)
+Theorem C01_sync_plan_is_exactly_the_changed_keyspaces :
+  forall (recorded reported : gmap N N),
+    (forall k, k ∈ ts_diff recorded reported <-> recorded !! k <> reported !! k) /\
+    (forall k, k ∉ ts_diff recorded reported <-> recorded !! k = reported !! k) /\
+    NoDup (ts_diff recorded reported).
+Proof.
+  intros recorded reported. split; [|split].
+  - intros k. exact (ts_diff_spec recorded reported k).
+  - intros k. exact (ts_diff_skips recorded reported k).
+  - exact (ts_diff_nodup recorded reported).
+Qed.
+
+(** Non-vacuity: four keyspaces - unchanged, changed, new on the peer, known only to the poller. *)
+Example C01_nonvacuous_sync_plan :
+  ts_diff_lists [(1, 10); (2, 20); (4, 40)] [(1, 10); (2, 21); (3, 30)] = [3; 2; 4].
+Proof. vm_compute. reflexivity. Qed.
+
+(** The poller's membership handling and its plan together ([PollerPlan.v]): a node listed as
+    having left loses its recorded stamps - also when the same change lists it as joined again
+    (address change, restart under a new address) - so its next poll plans every keyspace it
+    reports; every other node's plan is untouched by the change; and recording a completed
+    exchange of one keyspace at the reported stamp takes exactly that keyspace out of the plan. *)
+Theorem C01_departed_or_moved_peer_is_resynced_in_full :
+  forall s joined left i reported k,
+    i ∈ left.*1 ->
+    (k ∈ poller_plan (poller_apply s joined left) i reported <-> is_Some (reported !! k)).
+Proof. exact departed_node_is_resynced_in_full. Qed.
+
+Theorem C01_membership_change_keeps_other_peers_stamps :
+  forall s joined left i reported,
+    i ∉ left.*1 ->
+    poller_plan (poller_apply s joined left) i reported = poller_plan s i reported.
+Proof. exact other_nodes_keep_their_stamps. Qed.
+
+Theorem C01_recorded_keyspace_leaves_the_plan :
+  forall s node reported k t k',
+    reported !! k = Some t ->
+    (k' ∈ poller_plan (poller_record s node k t) node reported <->
+     k' <> k /\ k' ∈ poller_plan s node reported).
+Proof. exact recorded_keyspace_leaves_the_plan. Qed.
